@@ -126,7 +126,8 @@ FormNames == {"inv_fn", "inv_fnptr", "inv_functor_l", "inv_functor_c", "inv_func
               "bf_l", "bf_c", "bf_r", "bf_lv", "bf_memfn", "bf_fn",
               "nf_l", "nf_c", "nf_r", "nf_fn",
               "ipf_sig3", "ipf_sig3_copy",
-              "fl_l", "fl_c", "fl_r", "fl_cr", "flk_l", "flk_c", "flk_r", "flk_cr"}
+              "fl_l", "fl_c", "fl_r", "fl_cr", "flk_l", "flk_c", "flk_r", "flk_cr",
+              "inv_mv_obj_l", "inv_mv_obj_r", "inv_mv_ptr_l", "inv_mv_ptr_r", "inv_mv_refw_l", "inv_mv_refw_r"}
 
 FormExpect(form, x) ==
     CASE form \in {"inv_fn", "inv_fnptr", "fr_fn", "rw_fn"} -> Fn1(x)
@@ -157,6 +158,13 @@ FormExpect(form, x) ==
       [] form = "fl_cr" -> [calls |-> <<>>, ret |-> <<x.a, 4>>]
       [] form \in {"flk_l", "flk_c"} -> [calls |-> <<>>, ret |-> <<x.a, 2>>]
       [] form \in {"flk_r", "flk_cr"} -> [calls |-> <<>>, ret |-> <<x.a, 4>>]
+      \* member function with a class-type BY-VALUE parameter (target 12), object given directly / by pointer / by
+      \* reference_wrapper: an lvalue argument copy-constructs the parameter (1) and stays intact, an rvalue argument
+      \* move-constructs it (3) and is left moved-from; ret = <<result, caller's argument afterwards>>
+      [] form \in {"inv_mv_obj_l", "inv_mv_ptr_l", "inv_mv_refw_l"} ->
+            [calls |-> <<Rec(12, x.c, 1, <<x.a>>, <<1>>)>>, ret |-> <<Res(12, x.c, <<x.a>>), x.a>>]
+      [] form \in {"inv_mv_obj_r", "inv_mv_ptr_r", "inv_mv_refw_r"} ->
+            [calls |-> <<Rec(12, x.c, 1, <<x.a>>, <<3>>)>>, ret |-> <<Res(12, x.c, <<x.a>>), MOVED>>]
       \* not_fn(function): odd(a) negated
       [] form = "nf_fn" -> [calls |-> <<[t |-> 10, c |-> 0, self |-> 0, a |-> <<x.a>>, k |-> <<0>>, r |-> B(Odd(x.a))]>>,
                             ret |-> <<B(~Odd(x.a))>>]
